@@ -15,7 +15,8 @@ use p3_matrix::dense::RowMajorMatrix;
 use p3_poseidon2_circuit_air::KoalaBearD4Width16;
 use p3_recursion::pcs::fri::{FriVerifierParams, InputProofTargets, MerkleCapTargets, RecValMmcs};
 use p3_recursion::pcs::{FriProofTargets, RecExtensionValMmcs, Witness, set_fri_mmcs_private_data};
-use p3_recursion::{BatchStarkVerifierInputsBuilder, Poseidon2Config, verify_batch_circuit};
+use p3_recursion::{BatchStarkVerifierInputsBuilder, Poseidon2Config, StarkVerifierInputsBuilder, verify_batch_circuit, verify_p3_uni_proof_circuit};
+use p3_uni_stark::{PreprocessedVerifierKey, prove_with_preprocessed, setup_preprocessed, verify_with_preprocessed};
 use p3_test_utils::koala_bear_params::*;
 
 use crate::core::pool::observe;
@@ -42,6 +43,9 @@ pub enum CAir {
     Periodic,
     /// `Step` whose first a and last b are public values
     Pub,
+    /// b = a * pre0 + pre1 with two preprocessed columns pre0[r] = r + 1, pre1[r] = 2r + 3 (their
+    /// height has to be known to the AIR); `next`: pre0 is also read on the next row (pre0' = pre0 + 1)
+    Prep { log_rows: u8, next: bool },
 }
 
 const PERIODIC: [u64; 4] = [2, 3, 5, 7];
@@ -53,6 +57,21 @@ impl<Val: Field> BaseAir<Val> for CAir {
     fn num_public_values(&self) -> usize {
         if matches!(self, Self::Pub) { 2 } else { 0 }
     }
+    fn preprocessed_trace(&self) -> Option<RowMajorMatrix<Val>> {
+        match self {
+            Self::Prep { log_rows, .. } => Some(RowMajorMatrix::new((0..1usize << log_rows).flat_map(|r| [Val::from_usize(r + 1), Val::from_usize(2 * r + 3)]).collect(), 2)),
+            _ => None,
+        }
+    }
+    fn preprocessed_width(&self) -> usize {
+        if matches!(self, Self::Prep { .. }) { 2 } else { 0 }
+    }
+    fn main_next_row_columns(&self) -> Vec<usize> {
+        if matches!(self, Self::Step | Self::Pub) { vec![0] } else { vec![] }
+    }
+    fn preprocessed_next_row_columns(&self) -> Vec<usize> {
+        if matches!(self, Self::Prep { next: true, .. }) { vec![0] } else { vec![] }
+    }
     fn num_periodic_columns(&self) -> usize {
         usize::from(matches!(self, Self::Periodic))
     }
@@ -61,45 +80,104 @@ impl<Val: Field> BaseAir<Val> for CAir {
     }
 }
 
+/// The constraints that need no lookup support (every kind except the bus / local-lookup parts).
+fn eval_common<AB: AirBuilder>(air: &CAir, builder: &mut AB)
+where
+    AB::F: Field,
+{
+    let main = builder.main();
+    let row = main.current_slice();
+    let (a, b) = (row[0], row[1]);
+    match air {
+        CAir::Plain => builder.assert_zero(a + a - b),
+        CAir::Send | CAir::Recv => builder.assert_zero(a * a - b),
+        CAir::Step => {
+            let next = main.next_slice();
+            builder.when_transition().assert_zero(next[0] - a - b);
+        }
+        CAir::Pub => {
+            let (pv0, pv1): (AB::Expr, AB::Expr) = (builder.public_values()[0].into(), builder.public_values()[1].into());
+            let next = main.next_slice();
+            builder.when_transition().assert_zero(next[0] - a - b);
+            builder.when_first_row().assert_zero(pv0 - a);
+            builder.when_last_row().assert_zero(pv1 - b);
+        }
+        CAir::Local3 => {}
+        CAir::Periodic => {
+            let p: AB::Expr = builder.periodic_values()[0].into();
+            builder.assert_zero(p * a - b);
+        }
+        CAir::Prep { next, .. } => {
+            let prep = builder.preprocessed().clone();
+            let pre: AB::Expr = prep.current_slice()[0].into();
+            let pre1: AB::Expr = prep.current_slice()[1].into();
+            builder.assert_zero(pre.clone() * a + pre1 - b);
+            if *next {
+                let pre_next: AB::Expr = prep.next_slice()[0].into();
+                builder.when_transition().assert_zero(pre_next - pre - AB::Expr::ONE);
+            }
+        }
+    }
+}
+
 impl<AB: AirBuilder + InteractionBuilder> Air<AB> for CAir
 where
     AB::F: Field,
 {
     fn eval(&self, builder: &mut AB) {
+        eval_common(self, builder);
         let main = builder.main();
         let row = main.current_slice();
-        let (a, b) = (row[0], row[1]);
         match self {
-            Self::Plain => builder.assert_zero(a + a - b),
-            Self::Send => {
-                builder.assert_zero(a * a - b);
-                builder.push_interaction(BUS, [a.into(), b.into()], -1);
-            }
-            Self::Recv => {
-                builder.assert_zero(a * a - b);
-                builder.push_interaction(BUS, [a.into(), b.into()], 1);
-            }
-            Self::Step => {
-                let next = main.next_slice();
-                builder.when_transition().assert_zero(next[0] - a - b);
-            }
-            Self::Pub => {
-                let (pv0, pv1): (AB::Expr, AB::Expr) = (builder.public_values()[0].into(), builder.public_values()[1].into());
-                let next = main.next_slice();
-                builder.when_transition().assert_zero(next[0] - a - b);
-                builder.when_first_row().assert_zero(pv0 - a);
-                builder.when_last_row().assert_zero(pv1 - b);
-            }
+            Self::Send => builder.push_interaction(BUS, [row[0].into(), row[1].into()], -1),
+            Self::Recv => builder.push_interaction(BUS, [row[0].into(), row[1].into()], 1),
             Self::Local3 => {
                 let q: Vec<AB::Expr> = row[..3].iter().map(|&v| v.into()).collect();
                 let t: Vec<AB::Expr> = row[3..6].iter().map(|&v| v.into()).collect();
                 builder.push_local_interaction(vec![(q, Count::bounded(AB::Expr::ONE, 1)), (t, Count::provided(-AB::Expr::ONE))]);
             }
-            Self::Periodic => {
-                let p: AB::Expr = builder.periodic_values()[0].into();
-                builder.assert_zero(p * a - b);
-            }
+            _ => {}
         }
+    }
+}
+
+/// The same tables as a uni-STARK AIR (no lookup support needed: Plain, Step, Periodic, Pub, Prep).
+#[derive(Clone, Copy, Debug)]
+pub struct UAir(pub CAir);
+
+impl<Val: Field> BaseAir<Val> for UAir {
+    fn width(&self) -> usize {
+        BaseAir::<Val>::width(&self.0)
+    }
+    fn num_public_values(&self) -> usize {
+        BaseAir::<Val>::num_public_values(&self.0)
+    }
+    fn num_periodic_columns(&self) -> usize {
+        BaseAir::<Val>::num_periodic_columns(&self.0)
+    }
+    fn periodic_columns(&self) -> Vec<Vec<Val>> {
+        BaseAir::<Val>::periodic_columns(&self.0)
+    }
+    fn preprocessed_trace(&self) -> Option<RowMajorMatrix<Val>> {
+        BaseAir::<Val>::preprocessed_trace(&self.0)
+    }
+    fn preprocessed_width(&self) -> usize {
+        BaseAir::<Val>::preprocessed_width(&self.0)
+    }
+    fn main_next_row_columns(&self) -> Vec<usize> {
+        BaseAir::<Val>::main_next_row_columns(&self.0)
+    }
+    fn preprocessed_next_row_columns(&self) -> Vec<usize> {
+        BaseAir::<Val>::preprocessed_next_row_columns(&self.0)
+    }
+}
+
+impl<AB: AirBuilder> Air<AB> for UAir
+where
+    AB::F: Field,
+{
+    fn eval(&self, builder: &mut AB) {
+        eval_common(&self.0, builder);
     }
 }
 
@@ -131,6 +209,7 @@ fn trace_for(air: CAir, rows: usize) -> RowMajorMatrix<F> {
             CAir::Send | CAir::Recv => a * a,
             CAir::Step | CAir::Pub => F::from_usize(2 * r + 1),
             CAir::Periodic => a * F::from_u64(PERIODIC[r % 4]),
+            CAir::Prep { .. } => a * F::from_usize(r + 1) + F::from_usize(2 * r + 3),
             CAir::Local3 => unreachable!(),
         };
         values[2 * r] = a;
@@ -140,7 +219,13 @@ fn trace_for(air: CAir, rows: usize) -> RowMajorMatrix<F> {
     RowMajorMatrix::new(values, 2)
 }
 
-const ORDERS: [&[CAir]; 16] = [
+const PREP: CAir = CAir::Prep { log_rows: 0, next: false };
+const PREPN: CAir = CAir::Prep { log_rows: 0, next: true };
+const ORDERS: [&[CAir]; 20] = [
+    &[PREP],
+    &[CAir::Plain, PREPN, CAir::Send, CAir::Recv],
+    &[PREP, CAir::Step, PREPN],
+    &[CAir::Send, CAir::Recv, PREP, CAir::Pub],
     &[CAir::Pub],
     &[CAir::Plain, CAir::Pub, CAir::Send, CAir::Recv],
     &[CAir::Pub, CAir::Periodic, CAir::Pub],
@@ -195,33 +280,131 @@ fn corrupt(v: &mut [Challenge], pos: usize, seed: u64) {
     }
 }
 
+pub struct UniBuilt {
+    pub circuit: p3_circuit::Circuit<Challenge>,
+    pub vi: StarkVerifierInputsBuilder<MyConfig, MerkleCapTargets<F, DIGEST_ELEMS>, InnerFri>,
+    pub ids: Vec<p3_circuit::NonPrimitiveOpId>,
+}
+
+/// The verifier's side of the uni-STARK arm: which AIR it verifies and, for `Prep`, its
+/// preprocessed verifying key. Fixed by `uni_prove_fib` for the run (one run = one thread).
+#[derive(Clone)]
+struct UniCtx {
+    air: UAir,
+    vk: Option<PreprocessedVerifierKey<MyConfig>>,
+}
+
+thread_local! {
+    static UNI: std::cell::RefCell<Option<UniCtx>> = const { std::cell::RefCell::new(None) };
+}
+
+fn uni_ctx() -> Result<UniCtx, String> {
+    UNI.with(|u| u.borrow().clone()).ok_or_else(|| "no uni context".to_string())
+}
+
+fn uni_kind(s: &FriShape, log_n: usize) -> CAir {
+    match (s.num_queries + s.cap_height + 3 * s.log_blowup + s.commit_pow_bits + log_n) % 6 {
+        0 => CAir::Plain,
+        1 => CAir::Step,
+        2 if log_n >= 2 => CAir::Periodic,
+        2 => CAir::Step,
+        3 => CAir::Pub,
+        4 => CAir::Prep { log_rows: log_n as u8, next: false },
+        _ => CAir::Prep { log_rows: log_n as u8, next: true },
+    }
+}
+
 pub struct U;
 
 impl RecUni for U {
     const NAME: &'static str = "U-KB4-CUSTOM";
     const MIN_LOG_BLOWUP: usize = 1;
-    const HAS_UNI: bool = false;
     type Val = F;
     type UniProof = p3_uni_stark::Proof<MyConfig>;
     type BatchProof = BatchProof<MyConfig>;
     type Common = Common;
-    type UniBuilt = ();
+    type UniBuilt = UniBuilt;
     type BatchBuilt = Built;
 
     fn uni_prove_fib(s: &FriShape, log_n: usize) -> (Self::UniProof, Vec<F>) {
-        crate::rec::kb4::uni_prove_fib(s, log_n)
+        let air = UAir(uni_kind(s, log_n));
+        let config = crate::rec::kb4::config(s);
+        let trace = trace_for(air.0, 1 << log_n);
+        let pis = pvs_for(air.0, 1 << log_n);
+        let pre = setup_preprocessed(&config, &air, log_n);
+        let proof = prove_with_preprocessed(&config, &air, trace, &pis, pre.as_ref().map(|(pd, _)| pd));
+        UNI.with(|u| *u.borrow_mut() = Some(UniCtx { air, vk: pre.map(|(_, vk)| vk) }));
+        (proof, pis)
     }
-    fn uni_native(_s: &FriShape, _proof: &Self::UniProof, _pis: &[F]) -> Result<(), String> {
-        Err("no uni arm".into())
+    fn uni_native(s: &FriShape, proof: &Self::UniProof, pis: &[F]) -> Result<(), String> {
+        let ctx = uni_ctx()?;
+        match observe(|| verify_with_preprocessed(&crate::rec::kb4::config(s), &ctx.air, proof, pis, ctx.vk.as_ref()).map_err(|e| format!("{e:?}"))) {
+            Ok(r) => r,
+            Err(p) => Err(format!("panic: {p}")),
+        }
     }
-    fn uni_build(_s: &FriShape, _proof: &Self::UniProof, _n_pis: usize) -> Result<(), CircuitVerdict> {
-        Err(CircuitVerdict::BuildErr("no uni arm".into()))
+    fn uni_build(s: &FriShape, proof: &Self::UniProof, n_pis: usize) -> Result<UniBuilt, CircuitVerdict> {
+        let ctx = uni_ctx().map_err(CircuitVerdict::BuildErr)?;
+        let config = crate::rec::kb4::config(s);
+        let built = observe(|| {
+            let mut cb = CircuitBuilder::<Challenge>::new();
+            cb.enable_poseidon2_perm::<KoalaBearD4Width16, _>(generate_poseidon2_trace::<Challenge, KoalaBearD4Width16>, p3_koala_bear::default_koalabear_poseidon2_16());
+            cb.enable_recompose::<F>(generate_recompose_trace::<F, Challenge>);
+            let vi = StarkVerifierInputsBuilder::<MyConfig, MerkleCapTargets<F, DIGEST_ELEMS>, InnerFri>::allocate(&mut cb, proof, ctx.vk.as_ref().map(|vk| &vk.commitment), n_pis);
+            let params = FriVerifierParams::with_mmcs(s.log_blowup, s.log_final_poly_len, s.commit_pow_bits, s.query_pow_bits, P2);
+            let ids = verify_p3_uni_proof_circuit::<UAir, MyConfig, MerkleCapTargets<F, DIGEST_ELEMS>, InputProofTargets<F, Challenge, RecMmcs>, InnerFri, _, WIDTH, RATE>(
+                &config,
+                &ctx.air,
+                &mut cb,
+                &vi.proof_targets,
+                &vi.air_public_targets,
+                &vi.preprocessed_commit,
+                &params,
+                P2,
+            )
+            .map_err(|e| format!("{e:?}"))?;
+            let circuit = cb.build().map_err(|e| format!("{e:?}"))?;
+            Ok::<_, String>(UniBuilt { circuit, vi, ids })
+        });
+        match built {
+            Ok(Ok(x)) => Ok(x),
+            Ok(Err(e)) => Err(CircuitVerdict::BuildErr(e)),
+            Err(p) => Err(CircuitVerdict::BuildPanic(p)),
+        }
     }
-    fn uni_run_mut(_b: &(), _proof: &Self::UniProof, _pis: &[F], _m: Option<(bool, usize, u64)>) -> (CircuitVerdict, CircuitInfo) {
-        (CircuitVerdict::BuildErr("no uni arm".into()), CircuitInfo::default())
+    fn uni_run_mut(b: &UniBuilt, proof: &Self::UniProof, pis: &[F], m: Option<(bool, usize, u64)>) -> (CircuitVerdict, CircuitInfo) {
+        let mut info = CircuitInfo { ops: b.circuit.ops.len(), public_len: b.circuit.public_flat_len, private_len: b.circuit.private_flat_len, ..Default::default() };
+        let ran = observe(|| {
+            let ctx = uni_ctx()?;
+            let (mut pubs, mut privs) = b.vi.pack_values(pis, proof, &ctx.vk.as_ref().map(|vk| vk.commitment.clone()));
+            if let Some((is_pub, pos, seed)) = m {
+                if is_pub { corrupt(&mut pubs, pos, seed) } else { corrupt(&mut privs, pos, seed) }
+            }
+            let pp: Vec<u64> = pubs.iter().flat_map(ext_words).collect();
+            let pq: Vec<u64> = privs.iter().flat_map(ext_words).collect();
+            let mut r = b.circuit.runner();
+            r.set_public_inputs(&pubs).map_err(|e| format!("{e:?}"))?;
+            r.set_private_inputs(&privs).map_err(|e| format!("{e:?}"))?;
+            set_fri_mmcs_private_data::<F, Challenge, ChallengeMmcs, MyMmcs, MyHash, MyCompress, DIGEST_ELEMS>(&mut r, &b.ids, &proof.opening_proof, P2).map_err(|e| format!("private data: {e}"))?;
+            r.run().map_err(|e| format!("{e:?}"))?;
+            Ok::<_, String>((pp, pq))
+        });
+        match ran {
+            Ok(Ok((pp, pq))) => {
+                info.packed_public = pp;
+                info.packed_private = pq;
+                (CircuitVerdict::Accept, info)
+            }
+            Ok(Err(e)) => (CircuitVerdict::RunErr(e), info),
+            Err(p) => (CircuitVerdict::RunPanic(p), info),
+        }
     }
-    fn uni_pack(_b: &(), _proof: &Self::UniProof, _pis: &[F]) -> Result<(Vec<u64>, Vec<u64>), String> {
-        Err("no uni arm".into())
+    fn uni_pack(b: &UniBuilt, proof: &Self::UniProof, pis: &[F]) -> Result<(Vec<u64>, Vec<u64>), String> {
+        let ctx = uni_ctx()?;
+        observe(|| {
+            let (pubs, privs) = b.vi.pack_values(pis, proof, &ctx.vk.as_ref().map(|vk| vk.commitment.clone()));
+            (pubs.iter().flat_map(ext_words).collect(), privs.iter().flat_map(ext_words).collect())
+        })
     }
     fn ext_degree() -> usize {
         4
@@ -234,14 +417,24 @@ impl RecUni for U {
 
     fn batch_prove(s: &FriShape, p: &crate::gprog::Program, public_lanes: usize, alu_lanes: usize) -> Result<(Self::BatchProof, Common, usize), String> {
         let e = p.calls.len();
-        let airs: Vec<CAir> = ORDERS[e % ORDERS.len()].to_vec();
+        let mut airs: Vec<CAir> = ORDERS[e % ORDERS.len()].to_vec();
         // heights: the bus pair shares one height; the others differ from it
         let min_log = s.log_final_poly_len + 1;
         let bus_log = min_log + (e / 8) % 3;
         let other_log = min_log + (public_lanes + alu_lanes) % 4;
+        let log_of = |a: &CAir| match a {
+            CAir::Send | CAir::Recv => bus_log,
+            CAir::Periodic => other_log.max(2),
+            _ => other_log,
+        };
+        for a in airs.iter_mut() {
+            if let CAir::Prep { log_rows, .. } = a {
+                *log_rows = other_log as u8;
+            }
+        }
         let r = observe(|| {
             let config = crate::rec::kb4::config(s);
-            let traces: Vec<RowMajorMatrix<F>> = airs.iter().map(|a| trace_for(*a, 1 << if matches!(a, CAir::Send | CAir::Recv) { bus_log } else { other_log })).collect();
+            let traces: Vec<RowMajorMatrix<F>> = airs.iter().map(|a| trace_for(*a, 1 << log_of(a))).collect();
             let pvs: Vec<Vec<F>> = airs.iter().zip(traces.iter()).map(|(a, t)| pvs_for(*a, p3_matrix::Matrix::height(t))).collect();
             let instances: Vec<StarkInstance<'_, MyConfig, CAir>> = airs.iter().zip(traces.iter()).zip(pvs.iter()).map(|((air, trace), pv)| StarkInstance { air, trace, public_values: pv.clone() }).collect();
             let pd = ProverData::from_instances(&config, &instances);
